@@ -389,6 +389,49 @@ def oracle_structured(case, impl):
     cmd, occs, exp = expectation(case)
     if exp is None:
         return oracle_invariants(case, impl)
+    return judge(cmd, exp, p, p.get("m"))
+
+
+GLOBAL_SUB = b"run"
+
+
+def flatten_globals(case):
+    """`prog run <line>` over a command whose options are all global and whose only subcommand `run` declares nothing:
+    the occurrences behind the subcommand name belong to the propagated copies of the global arguments, which carry the
+    declared override lists unchanged (Command::_propagate_global_args), so the level of `run` must hold exactly what
+    the same line means on the flat command.  -> (flat cmd, flat argv) or None"""
+    cmd, argv = decode_case(case)
+    if len(cmd["subs"]) != 1 or cmd["subs"][0]["name"] != GLOBAL_SUB or len(argv) < 2 or argv[1] != GLOBAL_SUB:
+        return None
+    sub = cmd["subs"][0]
+    if sub["args"] or sub["subs"] or sub["groups"] or sub["settings"] or any("global" not in a["flags"] for a in cmd["args"]):
+        return None
+    flat = dict(cmd, subs=[], args=[dict(a, flags=set(a["flags"]) - {"global"}) for a in cmd["args"]])
+    return flat, [argv[0]] + argv[2:]
+
+
+def oracle_globals(case, impl):
+    p = parse_result(impl)
+    if p["kind"] in ("panic", "abort", "invalid", "other", "outoffuel"):
+        return None
+    fl = flatten_globals(case)
+    if fl is None:
+        return None
+    cmd, argv = fl
+    occs = scan(cmd, argv)
+    if occs is None:
+        return None
+    exp = fold(cmd, occs)
+    m = None
+    if p["kind"] == "ok":
+        _, sub = entries(p["m"])
+        if sub is None or sub[0] != GLOBAL_SUB:
+            return "the subcommand %s named on the line was not selected" % GLOBAL_SUB.decode()
+        m = sub[1]
+    return judge(cmd, exp, p, m)
+
+
+def judge(cmd, exp, p, m):
     if exp[0] == "err":
         if p["kind"] == "ok":
             return "a Set-like argument was repeated without self-override but the line was accepted"
@@ -398,7 +441,7 @@ def oracle_structured(case, impl):
     if p["kind"] == "err":
         return "valid line of the conventional class rejected with %s (expected %s)" % (
             p["ekind"], {k.decode(): show_groups(v) for k, v in exp[1].items()})
-    ents, _ = entries(p["m"])
+    ents, _ = entries(m)
     got = {e["id"]: e for e in ents}
     _, state, unspecified = exp
     for a in cmd["args"]:
@@ -736,6 +779,28 @@ def gen_structured(rng, n_cases, mode="parse", stats=None):
     return out[:n_cases]
 
 
+def gen_globals(rng, n_cases, stats=None):
+    """the structured family with every option global and the whole line written behind a subcommand name (seeded change
+    seed3/C07-3 pruned the override lists of the propagated copies: self-overrides and overrides of later-declared globals)"""
+    out = []
+    while len(out) < n_cases:
+        flat = gen_spec(rng, force_target_action=pick(rng, [None, "count", "append", "set", "settrue", "setfalse"]))
+        flat["args"] = [a for a in flat["args"] if is_opt(a)]
+        flat["groups"] = []
+        c = dict(flat, args=[dict(a, flags=set(a["flags"]) | {"global"}) for a in flat["args"]],
+                 subs=[{"name": GLOBAL_SUB, "about": b"R", "args": [], "groups": [], "subs": [], "settings": [], "aliases": []}])
+        for _ in range(3):
+            target, n, seq = gen_invocation(rng, flat, target=flat["args"][0] if chance(rng, 0.6) else None)
+            argv = render(rng, flat, seq)
+            out.append(gen_cmd.case_sx(c, [argv[0], GLOBAL_SUB] + argv[1:]))
+            if stats is not None:
+                stats["target action x repeats x override kind"]["%s x %s x %s" % (target["action"], bucket(n), override_kind(flat, target))] += 1
+                stats["target action"][target["action"]] += 1
+                stats["repeat bucket"][bucket(n)] += 1
+                stats["override kind of target"][override_kind(flat, target)] += 1
+    return out[:n_cases]
+
+
 PAIR_PATTERNS = ["ab", "ba", "aba", "bab", "aab", "abb", "bba", "baa", "abab", "a", "b"]
 
 
@@ -862,6 +927,8 @@ def streams(tier, rng):
     boundary = gen_boundary(rng, stats=st_b, tier=tier)
     typed = gen_structured(rng, n_typed, mode="c07typed", stats=st_t) + gen_pairs(rng, mode="c07typed") \
         + gen_boundary(rng, mode="c07typed", tier=tier)
+    st_g = new_stats()
+    globs = gen_globals(rng, n_struct // 3, stats=st_g)
     prof = dict(gen_cmd.CONVENTIONAL)
     prof.update(relations=0.6, globals=0, env=0.05, typed=0, max_opts=5)
     rand = gen_cases(rng, n_rand, prof_kw=prof, per_cmd=4, p_mutate=0.4, safe_p=0.7)
@@ -874,6 +941,8 @@ def streams(tier, rng):
                nontrivial=nontrivial, describe=freeze(st_p, pairs, "pairs")),
         Stream("boundary", boundary, oracle=oracle_structured, area="parse", project=project,
                nontrivial=nontrivial, describe=freeze(st_b, boundary, "boundary")),
+        Stream("globals", globs, oracle=oracle_globals, area="parse", project=project,
+               nontrivial=nontrivial, describe=freeze(st_g, globs, "globals")),
         Stream("typed", typed, oracle=oracle_typed, area=None, project=project_typed,
                nontrivial=nontrivial, describe=freeze(st_t, typed, "typed")),
         Stream("random", rand, oracle=oracle_structured, area="parse", project=project, nontrivial=nontrivial,
